@@ -74,6 +74,14 @@ def grow_cases(rng, caps, per_cap):
             pool = draw_pool(rng, scale(k // 3))
             draws = [rng.choice(pool) for _ in range(14)]
             out.append("%d %d %d %s %s" % (k, rng.choice([0, MAX]), k + 2, ops, ",".join(map(str, draws))))
+    # `.kismet_temp` is not a directory (a regular file: listing it fails with ENOTDIR on EVERY
+    # maintenance): whatever the firing writes report, the prune still happens first and the
+    # directory stays within the bound
+    for k in (0, 1, 2, 3, 6, 9):
+        for ops in ("Fssssssss", "Fspspspsp", "FAsssssss"):
+            pool = draw_pool(rng, scale(k // 3))
+            draws = [rng.choice(pool) for _ in range(20)]
+            out.append("%d %d %d %s %s" % (k, rng.choice([0, MAX]), k, ops, ",".join(map(str, draws))))
     for k in (0, 1, 2, 3, 5):
         for ops in ("PPP", "PpP", "SPs", "PSP"):
             pool = draw_pool(rng, scale(k // 3))
